@@ -328,7 +328,7 @@ pre {
 
     # build the skipped string to insert in the report
     skipped_str = "".join(
-        f"{html_escape(fname)} <b>reason:</b> {html_escape(reason)}<br>"
+        f"{html_escape(fname)} <b>reason:</b> {html_escape(str(reason))}<br>"
         for fname, reason in manager.get_skipped()
     )
     if skipped_str:
